@@ -42,7 +42,7 @@ def ref_normalize_token(token, digits):
         if not isinstance(token, str):
             return None
         s = _strip.sub("", token)
-        if not s or not s.isdigit():
+        if not s or not (s.isascii() and s.isdigit()):  # ASCII-strict: str.isdigit() alone takes other scripts and superscripts
             return None
     if len(s) != digits:
         return None
